@@ -3,18 +3,19 @@ Theorems: coq/Props/C19.v (MIDI byte codec round trip + int() truncation, OSC 1.
 unbounded argument lists + the documented /note and /control forms, MPE allocator invariant over all call
 sequences).  Correspondence: the real devices are driven in a fresh interpreter with a fake mido port, a
 loop-back UDP socket and a saved MIDI file; every captured byte string is compared inside Coq with the model
-and decoded by the Coq decoders.  Oracle: an independent MIDI status-byte table, a tiny OSC 1.0 parser and
-a channel-uniqueness tracker for MPE, all in plain Python."""
+and decoded by the Coq decoders.  Oracle: an independent MIDI status-byte table, a tiny OSC 1.0 parser (type
+tags), a channel-uniqueness tracker for MPE and a tick counter for the delta times of the MIDI file, all in plain
+Python.  Histories: several requests through the same device instance (port, OSC, file) are judged one by one."""
 from common import *
 import struct
 
 PROP = "C19"
 META = {
  "engine": "F-pure-functions",
- "text": "Coq theorems (Props/C19.v, closed under the global context): (1) the MIDI channel-voice encoding used for note_on/note_off/control_change/program_change/aftertouch/pitchwheel is decoded back to the same message for ALL fields in range (note, velocity, value, program 0..127, channel 0..15, pitch -8192..8191), is injective, rejects exactly the out-of-range requests, and a float argument is encoded as its truncation toward zero (Python int()); (2) the OSC 1.0 encoding (NUL-padded strings, type-tag string, big-endian int32, 4-byte float payloads) is decoded back to the same address and argument list for EVERY address and EVERY finite argument list of ints, floats and strings (induction, unbounded), hence is injective, and the device's note_on/note_off/control requests are the documented /note [note, velocity, channel] and /control [control, value, channel] forms; (3) for EVERY sequence of MPE note_on/note_off/expression calls with at most 15 notes held at once, every note_on is sent on a channel in 1..15 that no other held note uses, note_off and per-note expression go out on the note's channel, and the release frees it (invariant by induction over the call sequence). The models are tied to the repository on every run: the real MidiOutputDevice/MPEOutputDevice (fake mido port), OSCOutputDevice (loop-back UDP socket) and MidiFileOutputDevice (file read back with mido) are driven directly and through Timeline/Track.perform_event; the captured bytes are compared with the model inside Coq (vm_compute) and OSC datagrams are decoded by the Coq decoder; an independent Python oracle (status-byte table, OSC 1.0 parser, channel-uniqueness tracker) judges every result and supplies the failing input.",
- "note": "Trusted: Coq kernel + VM; the Python harness; mido's and python-osc's serialisers and the loop-back socket are exercised on every run but not modelled beyond the byte formats; struct.pack('>f') supplies the float32 payload bytes the OSC model carries (the oracle checks them independently against the exact value). Not covered: delta times in the MIDI file (C16); OSC int64/blob/bool arguments; MPE calls that press a note index that is already down, more than 15 simultaneous notes, and note_off of a note that is not down beyond 'nothing is sent'; release velocity of note_off (not fixed by the property). Requests with out-of-range fields are outside the property: the model says mido rejects them and they are compared only when the implementation rejects them too.",
+ "text": "Coq theorems (Props/C19.v, closed under the global context): (1) the MIDI channel-voice encoding used for note_on/note_off/control_change/program_change/aftertouch/pitchwheel is decoded back to the same message for ALL fields in range (note, velocity, value, program 0..127, channel 0..15, pitch -8192..8191), is injective, rejects exactly the out-of-range requests, and a float argument is encoded as its truncation toward zero (Python int()); (2) the OSC 1.0 encoding (NUL-padded strings, type-tag string, big-endian int32, 4-byte float payloads) is decoded back to the same address and argument list for EVERY address and EVERY finite argument list of ints, floats and strings (induction, unbounded), hence is injective, and the device's note_on/note_off/control requests are the documented /note [note, velocity, channel] and /control [control, value, channel] forms; (3) for EVERY sequence of MPE note_on/note_off/expression calls with at most 15 notes held at once, every note_on is sent on a channel in 1..15 that no other held note uses, note_off and per-note expression go out on the note's channel, and the release frees it (invariant by induction over the call sequence); (4) for EVERY sequence of tick() runs and requests on the MIDI-file device the running sum of the written delta times puts each message at exactly the number of tick() calls that preceded its request, whatever the gap and the ticks_per_beat (exact beat arithmetic with round-half-even is the identity on tick differences), and rejected or not-implemented requests leave the timing untouched; (5) the k-th datagram of ANY history of OSC requests decodes to the k-th request and requests that differ only in the TYPE of an argument (int 2 / float 2.0 / string '2') never share a datagram. The models are tied to the repository on every run: the real MidiOutputDevice/MPEOutputDevice (fake mido port), OSCOutputDevice (loop-back UDP socket) and MidiFileOutputDevice (file read back with mido) are driven directly and through Timeline/Track.perform_event; the captured bytes are compared with the model inside Coq (vm_compute) and OSC datagrams are decoded by the Coq decoder; an independent Python oracle (status-byte table, OSC 1.0 parser, channel-uniqueness tracker) judges every result and supplies the failing input.",
+ "note": "Trusted: Coq kernel + VM; the Python harness; mido's and python-osc's serialisers and the loop-back socket are exercised on every run but not modelled beyond the byte formats; struct.pack('>f') supplies the float32 payload bytes the OSC model carries (the oracle checks them independently against the exact value). Delta times: the absolute tick of every saved message is judged (integers) for gaps up to 250 beats at resolutions 7..10080; the float arithmetic of the file device is not modelled, the closing dummy note_off is compared with the model only (trailing silence is C16's). MidiFileOutputDevice does not implement control / program_change / pitch_bend (inherited no-ops): not reported, such requests must write nothing and leave the surrounding ticks intact, and are judged like note_on once the class implements them. Not covered: OSC int64/blob/bool arguments (bools are sent inside histories but not judged); MPE calls that press a note index that is already down, more than 15 simultaneous notes, and note_off of a note that is not down beyond 'nothing is sent'; release velocity of note_off (not fixed by the property). Requests with out-of-range fields are outside the property: the model says mido rejects them and they are compared only when the implementation rejects them too.",
 }
-HEADER = """From Isobar Require Import Base.Prelude IO.MidiBytes IO.Osc IO.Mpe.
+HEADER = """From Isobar Require Import Base.Prelude IO.MidiBytes IO.Osc IO.Mpe IO.FileWire.
 From Coq Require Import QArith.
 Open Scope Z_scope.
 Definition zq (n : Z) : Q := Qmake n 1.
@@ -315,6 +316,80 @@ def judge_osc(run, cases, results):
             "case": {"stratum": "osc", "payload": c}, "observed": r, "coq_term": terms[i]}, found_input=False)
 
 
+# ---- OSC histories: several requests through the same device, judged message by message -----------------
+def has_bool(c):
+    op, a = c["op"], c["args"]
+    vals = a if op != "send" else (a[1] if isinstance(a[1], list) else [])
+    return any(isinstance(val(v), bool) for v in vals)
+
+
+def osch_snippet(h):
+    lines = ["import socket, isobar as iso", "from isobar.io.osc.output import OSCOutputDevice",
+             "s = socket.socket(socket.AF_INET, socket.SOCK_DGRAM); s.bind(('127.0.0.1', 0)); s.settimeout(1)",
+             "d = [OSCOutputDevice('127.0.0.1', s.getsockname()[1]) for _ in range(%d)]" % h.get("ndev", 1)]
+    for c in h["msgs"]:
+        lines.append(osc_snippet(c).splitlines()[-2].replace("d.", "d[%d]." % c.get("dev", 0), 1) + "; print(s.recv(65536))")
+    return "\n".join(lines)
+
+
+def judge_osch(run, hists, results):
+    """one case = one HISTORY of requests on the same device(s); every datagram is decoded at the type-tag level
+    and compared with the exact OSC 1.0 encoding of the arguments AS GIVEN (int / float / string), whatever was
+    sent before.  A message with a bool argument is outside the property (ints, floats, strings): it is sent, it
+    may influence later messages, but it is not judged itself."""
+    terms, meta = [], []
+    for h, res in zip(hists, results):
+        run.nontrivial("osch " + json.dumps(h, sort_keys=True))
+        run.dist("osch.histories")
+        run.dist("osch.messages", len(h["msgs"]))
+        if h.get("ndev", 1) > 1:
+            run.dist("osch.histories-over-%d-devices" % h["ndev"])
+        judged, dgs, bad = [], [], False
+        prev = None
+        for k, (c, r) in enumerate(zip(h["msgs"], res)):
+            if has_bool(c):
+                run.dist("osch.bool-message(unjudged)")
+                prev = None
+                continue
+            run.count()
+            run.cov["oracle_evaluations"] += 1
+            req = osc_request(c)
+            if prev is not None and prev[0] == req[0] and prev[1] == req[1]:
+                same_types = [type(x) for x in prev[1]] == [type(x) for x in req[1]]
+                run.dist("osch.consecutive-equal(==)-requests:%s" % ("identical" if same_types else "types-differ"))
+            prev = req
+            exc, dg = r["raise"], [bytes.fromhex(x) for x in r["dgrams"]]
+            if exc is not None:
+                why, kind = "the call raised %s" % exc, "osc-raises"
+            elif len(dg) != 1:
+                why, kind = "%d datagrams received, 1 expected" % len(dg), "osc-datagram-count"
+            else:
+                why, kind = osc_oracle(c, dg[0]), "osc-wrong-datagram"
+            if why:
+                small = {"msgs": h["msgs"][:k + 1], "ndev": h.get("ndev", 1)}
+                run.violation({"kind": kind, "site": "OSCOutputDevice." + c["op"], "exc": exc, "history": True}, {
+                    "case": {"stratum": "osch", "payload": small},
+                    "expected": "message %d of the history: one OSC datagram with address %r and arguments %r (types as given: %s)" % (
+                        k, req[0], req[1], [type(x).__name__ for x in req[1]]),
+                    "observed": {"raise": exc, "datagrams": r["dgrams"], "why": why, "failing_message_index": k},
+                    "oracle": "OSC 1.0 parser (type tags)", "python": osch_snippet(small)})
+                bad = True
+                break
+            judged.append(osc_msg_term(c)); dgs.append(list(dg[0]))
+        terms.append("false" if bad else "osc_history_agrees %s %s" % (lst(judged), zll(dgs)))
+        meta.append((h, res, not bad))
+        run.sample({"device": "OSCOutputDevice", "history": [osc_snippet(c).splitlines()[-2] for c in h["msgs"][:4]],
+                    "datagrams": [r["dgrams"] for r in res[:4]]}, limit=3)
+    failing = run.coq_failing(HEADER, terms, chunk=60)
+    run.cov["traces_validated_against_impl"] += sum(len(meta[i][0]["msgs"]) for i in range(len(terms)) if i not in failing)
+    for i in failing:
+        h, res, ok = meta[i]
+        if ok:
+            run.violation({"kind": "correspondence", "site": "OSCOutputDevice(history)"}, {
+                "broken": "correspondence model/implementation on a history of OSC requests (C19_osc_history no longer speaks about this code)",
+                "case": {"stratum": "osch", "payload": h}, "observed": res, "coq_term": terms[i][:3000]}, found_input=False)
+
+
 # ---- MPE oracle: channel uniqueness among held notes -------------------------------------------------------
 def mpe_oracle(seq, res):
     """returns (index, detail) of the first call whose wire output breaks the property, or None"""
@@ -452,43 +527,123 @@ def judge_wire_list(run, site, case_doc, reqs, wires, exc, snippet, strip_traili
     return "all2 wire_ok %s %s" % (lst([req_term(op, a) for op, a in reqs]), zll(w)), True
 
 
+FILE_REQ_OPS = ("note_on", "note_off", "control", "program_change", "pitch_bend", "aftertouch")
+
+
+def file_snippet(ops, ndev=1):
+    lines = ["from isobar.io.midifile.output import MidiFileOutputDevice", "import mido",
+             "d = [MidiFileOutputDevice('c19-%d.mid' % k) for k in range(" + str(ndev) + ")]"]
+    for op in ops:
+        k = op[2] if len(op) > 2 else 0
+        if op[0] == "tick":
+            lines.append("for _ in range(%d): d[%d].tick()" % (op[1], k))
+        elif op[0] == "tpb":
+            lines.append("d[%d].midifile.ticks_per_beat = %d" % (k, op[1]))
+        else:
+            lines.append("d[%d].%s(%s)" % (k, op[0], ", ".join(pyrepr(a) for a in op[1])))
+    lines += ["for k, x in enumerate(d):", "    x.write(); t = 0",
+              "    for m in mido.MidiFile('c19-%d.mid' % k).tracks[0]:", "        t += m.time", "        if not m.is_meta: print(k, t, m)"]
+    return "\n".join(lines)
+
+
+def judge_file_device(run, site, doc, ops, calls, f, supports, snippet, tag="file"):
+    """one MidiFileOutputDevice: `ops` = its tick runs and requests in call order, `calls` = exception class per op
+    (None when the op is a tick or returned), `f` = what was read back from the saved file.  Returns (coq term, ok)
+    or None when the case is outside the domain.  Judged by the oracle: the note/value/channel bytes of every message
+    (as before) AND its absolute tick = the number of tick() calls that preceded the request (integer arithmetic on
+    the delta times of the file); compared with the model only: the closing dummy note_off and its delta."""
+    reqs, ticks_at, fops, now, tpb = [], [], [], 0, None
+    exc, exc_detail = f["write"], None
+    for op, e in zip(ops, calls):
+        if op[0] == "tick":
+            now += op[1]
+            fops.append("FTicks %s" % zlit(op[1]))
+            continue
+        if op[0] == "tpb":
+            tpb = op[1]
+            continue
+        if op[0] not in FILE_REQ_OPS or any(isinstance(a, list) and a and a[0] == "opaque" for a in op[1]) or len(op[1]) != ARITY[op[0]]:
+            run.discard("request the harness cannot describe (%s)" % op[0]); return None
+        if not supports.get(op[0]):
+            # the device class does not implement this request itself (inherited no-op / no such method): it writes
+            # nothing and must not disturb the timing of the messages around it
+            run.dist("%s.request-not-implemented-by-the-device(%s)" % (tag, op[0]))
+            fops.append("FSilent")
+            continue
+        fops.append("FReq %s" % req_term(op[0], op[1]))
+        if midi_expect(op[0], op[1]) is None:
+            if e is None:
+                run.discard("MIDI-file case with an accepted out-of-range request"); return None
+            run.dist("%s.rejected-request-between-messages" % tag)
+            continue
+        reqs.append((op[0], op[1]))
+        ticks_at.append(now)
+        if any(isinstance(val(a), float) for a in op[1]):
+            run.dist("%s.float-argument" % tag)
+        if e is not None and exc is None:
+            exc, exc_detail = e, "%s in %s%r" % (e, op[0], tuple(val(a) for a in op[1]))
+    msgs = f["msgs"]
+    wires = None if msgs is None else [m["bytes"] for m in msgs]
+    t, ok = judge_wire_list(run, site, doc, reqs, wires, exc, snippet, True, exc_detail)
+    if not ok:
+        return t, ok
+    # ---- delta times: absolute tick of every message, exact ----
+    run.cov["oracle_evaluations"] += len(reqs)
+    gaps = [b - a for a, b in zip([0] + ticks_at, ticks_at)]
+    unit = tpb or 480
+    for g in gaps:
+        run.dist("%s.gap-beats:%s" % (tag, "0" if g == 0 else "<1" if g < unit else "1..6" if g < 7 * unit else "7..19" if g < 20 * unit else "20..99" if g < 100 * unit else ">=100"))
+    run.dist("%s.ticks_per_beat:%s" % (tag, tpb or "default"))
+    why = None
+    if tpb is not None and f.get("tpb") is not None and f["tpb"] != tpb:
+        why = "the file header says %r ticks per beat, the device was set to %r" % (f["tpb"], tpb)
+    elif any(type(m["time"]) is not int or m["time"] < 0 for m in msgs):
+        why = "a delta time in the file is not a non-negative integer: %r" % [m["time"] for m in msgs][:12]
+    else:
+        at = 0
+        for k, (m, want) in enumerate(zip(msgs, ticks_at)):
+            at += m["time"]
+            if at != want:
+                why = ("message %d (%s%r) was requested after %d tick() calls, the file places it at tick %d (delta %d; "
+                       "previous message at tick %d)" % (k, reqs[k][0], tuple(val(x) for x in reqs[k][1]), want, at, m["time"], at - m["time"]))
+                break
+    if why:
+        run.violation({"kind": "file-wrong-tick", "site": site, "exc": None}, {
+            "case": doc, "expected": {"absolute_ticks": ticks_at, "ticks_per_beat": tpb or "default"},
+            "observed": {"deltas": [m["time"] for m in msgs], "file_ticks_per_beat": f.get("tpb"), "why": why},
+            "oracle": "absolute tick of a message = number of tick() calls before the request (integers)", "python": snippet})
+        return "false", False
+    obs = lst(["(%s, %s)" % (zlit(m["time"]), zlist(m["bytes"])) for m in msgs])
+    term = "(%s) && (let ops := %s in let obs := %s in file_agrees ops obs && file_ticks_agree ops obs)" % (t, lst(fops), obs)
+    return term, True
+
+
 def judge_file(run, cases, results):
     terms, meta = [], []
     for c, r in zip(cases, results):
         run.nontrivial("file " + json.dumps(c))
         run.dist("file.cases")
-        reqs, exc, exc_detail = [], r["write"], None
-        skip = False
-        for op, e in zip(c["ops"], r["calls"]):
-            if op[0] == "tick":
+        ndev = c.get("ndev", 1)
+        if ndev > 1:
+            run.dist("file.cases-with-%d-devices-interleaved" % ndev)
+        files = r.get("files") or [{"write": r["write"], "msgs": r["msgs"], "tpb": None}]
+        snippet = file_snippet(c["ops"], ndev)
+        for k in range(ndev):
+            sel = [(op, e) for op, e in zip(c["ops"], r["calls"]) if (op[2] if len(op) > 2 else 0) == k]
+            out = judge_file_device(run, "MidiFileOutputDevice", {"stratum": "file", "payload": c}, [o for o, _ in sel], [e for _, e in sel],
+                                    files[k], r.get("supports") or {"note_on": True, "note_off": True}, snippet)
+            if out is None:
                 continue
-            if midi_expect(op[0], op[1]) is None:
-                if e is None:
-                    skip = True     # out-of-range request accepted: outside the domain
-                continue
-            reqs.append((op[0], op[1]))
-            if any(isinstance(val(a), float) for a in op[1]):
-                run.dist("file.float-argument")
-            if e is not None and exc is None:
-                exc, exc_detail = e, "%s in %s%r" % (e, op[0], tuple(val(a) for a in op[1]))
-        if skip:
-            run.discard("MIDI-file case with an accepted out-of-range request"); continue
-        wires = None if r["msgs"] is None else [m["bytes"] for m in r["msgs"]]
-        lines = ["from isobar.io.midifile.output import MidiFileOutputDevice", "import mido", "d = MidiFileOutputDevice('c19.mid')"]
-        for op in c["ops"]:
-            lines.append("for _ in range(%d): d.tick()" % op[1] if op[0] == "tick" else "d.%s(%s)" % (op[0], ", ".join(pyrepr(a) for a in op[1])))
-        lines += ["d.write()", "print([m for m in mido.MidiFile('c19.mid').tracks[0] if not m.is_meta])"]
-        t, ok = judge_wire_list(run, "MidiFileOutputDevice", {"stratum": "file", "payload": c}, reqs, wires, exc, "\n".join(lines), True, exc_detail)
-        terms.append(t); meta.append((c, r, ok))
+            terms.append(out[0]); meta.append((c, r, out[1]))
         run.sample({"device": "MidiFileOutputDevice", "ops": c["ops"][:6], "messages_in_file": (r["msgs"] or [])[:4]}, limit=6)
-    failing = run.coq_failing(HEADER, terms, chunk=100)
+    failing = run.coq_failing(HEADER, terms, chunk=60)
     run.cov["traces_validated_against_impl"] += len(terms) - len(failing)
     for i in failing:
         c, r, ok = meta[i]
         if ok:
             run.violation({"kind": "correspondence", "site": "MidiFileOutputDevice"}, {
-                "broken": "correspondence model/implementation on the messages saved by MidiFileOutputDevice",
-                "case": {"stratum": "file", "payload": c}, "observed": r, "coq_term": terms[i]}, found_input=False)
+                "broken": "correspondence model/implementation on the messages and delta times saved by MidiFileOutputDevice (C19_file_* no longer speak about this code)",
+                "case": {"stratum": "file", "payload": c}, "observed": r, "coq_term": terms[i][:3000]}, found_input=False)
 
 
 def timeline_requests(c):
@@ -514,6 +669,8 @@ def timeline_snippet(c):
     dev = {"midi": "MidiOutputDevice('fake')  # with mido.open_output replaced by a recording port",
            "file": "MidiFileOutputDevice('c19.mid')  # then dev.write() and read the file back with mido",
            "osc": "OSCOutputDevice('127.0.0.1', port)  # port of a bound UDP socket"}[c["device"]]
+    if c.get("tpb"):
+        dev += "\ndev.midifile.ticks_per_beat = %d" % c["tpb"]
     return ("import isobar as iso, numpy as np\nfrom isobar.io import *\ndev = %s\ntl = iso.Timeline(output_device=dev, clock_source=iso.DummyClock())\n"
             "tl.stop_when_done = True\ntl.schedule({%s})\ntl.run()" % (dev, ev))
 
@@ -524,12 +681,25 @@ def judge_timeline(run, cases, results):
         run.nontrivial("timeline " + json.dumps(c, sort_keys=True))
         run.dist("timeline.%s" % c["device"])
         reqs = timeline_requests(c)
+        if c["device"] == "file":
+            # requests the file device class does not implement itself (inherited no-ops) write nothing
+            sup = r.get("supports") or {"note_on": True, "note_off": True}
+            reqs = [q for q in reqs if sup.get(q[0])]
         doc = {"stratum": "timeline", "payload": c}
         if c["device"] in ("midi", "file"):
             exc = r["raise"] or r.get("write")
             wires = r.get("sent") if c["device"] == "midi" else (None if r.get("msgs") is None else [m["bytes"] for m in r["msgs"]])
             t, ok = judge_wire_list(run, "Timeline->%s" % ("MidiOutputDevice" if c["device"] == "midi" else "MidiFileOutputDevice"),
                                     doc, reqs, wires, exc, timeline_snippet(c), c["device"] == "file")
+            if ok and c["device"] == "file" and r.get("log") is not None:
+                # WHEN each request reached the file: the recording subclass logged every tick() and request the
+                # Timeline made; the file must place each message at the tick count of its request
+                log = ([["tpb", c["tpb"]]] if c.get("tpb") else []) + r["log"]
+                out = judge_file_device(run, "Timeline->MidiFileOutputDevice", doc, log, [None] * len(log),
+                                        {"write": r.get("write"), "msgs": r.get("msgs"), "tpb": r.get("tpb")},
+                                        r.get("supports") or {"note_on": True, "note_off": True}, timeline_snippet(c), tag="timeline-file")
+                if out is not None:
+                    t, ok = "(%s) && (%s)" % (t, out[0]) if out[1] else "false", out[1]
         else:
             run.count(len(reqs))
             run.cov["oracle_evaluations"] += len(reqs)
@@ -735,6 +905,171 @@ def gen_file_case(rng, allow_float=True):
     return {"ops": ops}
 
 
+# ---- time passes between two messages: long gaps, several resolutions, many short events ----------------
+FILE_TPB = [None, None, 480, 24, 96, 120, 192, 240, 384, 960, 1000, 7, 10080]
+GAP_BEATS = [7, 8, 13, 20, 21, 32, 50, 64, 100, 128, 250]
+
+
+def gen_file_request(rng, down, dev=None):
+    """one request for a file device; `down` tracks the notes that are on"""
+    x = rng.random()
+    if x < 0.40 or (x < 0.62 and not down):
+        c = gen_midi_case(rng, ["note_on"], allow_bad=False)
+        down.append((c["args"][0], c["args"][2]))
+        op = ["note_on", c["args"]]
+    elif x < 0.62:
+        n, ch = down.pop(rng.randrange(len(down)))
+        op = ["note_off", [n, ch]]
+    elif x < 0.74:
+        op = ["control", gen_midi_case(rng, ["control"], allow_bad=False)["args"]]
+    elif x < 0.84:
+        op = ["program_change", gen_midi_case(rng, ["program_change"], allow_bad=False)["args"]]
+    elif x < 0.92:
+        op = ["pitch_bend", gen_midi_case(rng, ["pitch_bend"], allow_bad=False)["args"]]
+    else:
+        # a request mido rejects: nothing may be written and the messages around it keep their ticks
+        op = ["note_on", [rng.choice([128, -1, 300]), rng.randint(1, 127), rng.randint(0, 15)]] if rng.random() < 0.6 else \
+             ["note_on", [rng.randint(0, 127), rng.randint(1, 127), rng.choice([16, -1, 99])]]
+    return op if dev is None else op + [dev]
+
+
+def gen_gap(rng, tpb, budget):
+    """a gap in ticks: long (>= 7 beats, the stride at which a lossy running time shows), around whole beats, or short"""
+    unit = tpb or 480
+    x = rng.random()
+    if x < 0.55:
+        g = rng.choice(GAP_BEATS) * unit + rng.choice([0, 0, 0, 1, -1, unit // 2, rng.randrange(unit)])
+    elif x < 0.7:
+        g = rng.randint(7 * unit, 40 * unit)
+    elif x < 0.85:
+        g = rng.choice([0, 1, 2, 3, unit - 1, unit, unit + 1, 4 * unit])
+    else:
+        g = rng.randint(0, 6 * unit)
+    return max(0, min(g, budget))
+
+
+def gen_file_gap_case(rng, ndev=1):
+    """requests of every kind on a file device (or several, interleaved), at one of several resolutions, with LONG
+    silences between consecutive messages"""
+    ops, down, budget = [], [[] for _ in range(ndev)], 260000
+    tpbs = [rng.choice(FILE_TPB) for _ in range(ndev)]
+    tag = (lambda op, k: op + [k]) if ndev > 1 else (lambda op, k: op)
+    for k, t in enumerate(tpbs):
+        if t is not None:
+            ops.append(tag(["tpb", t], k))
+    for _ in range(rng.randint(3, 9)):
+        k = rng.randrange(ndev)
+        if rng.random() < 0.85:
+            g = gen_gap(rng, tpbs[k], budget)
+            budget -= g
+            ops.append(tag(["tick", g], k))
+        for _ in range(rng.choice([1, 1, 1, 2, 3])):
+            ops.append(gen_file_request(rng, down[k], k if ndev > 1 else None))
+    if rng.random() < 0.7:
+        k = rng.randrange(ndev)
+        ops.append(tag(["tick", gen_gap(rng, tpbs[k], budget)], k))         # trailing silence before write()
+    c = {"ops": ops}
+    if ndev > 1:
+        c["ndev"] = ndev
+    return c
+
+
+def gen_file_dense_case(rng):
+    """many requests a few ticks apart (a running time that loses a little per event or per tick shows as drift)"""
+    tpb = rng.choice([None, 96, 120, 480, 960, 7])
+    unit = tpb or 480
+    ops, down = ([["tpb", tpb]] if tpb else []), []
+    for _ in range(rng.randint(60, 160)):
+        ops.append(["tick", rng.choice([0, 1, 1, 2, 3, 5, unit // 3, unit // 4, unit // 2, unit, rng.randrange(2 * unit)])])
+        ops.append(gen_file_request(rng, down))
+    return {"ops": ops}
+
+
+# ---- histories of OSC requests that are equal under == but differ in type ----------------------------------
+OSCH_NUMS = [0, 1, 2, 3, 7, 60, 64, 100, 127, 128, 440, 880, 1000, -1, -2, 65536, 16777216]
+
+
+def typed_variants(n, strings=True, bools=False):
+    v = [n, float(n)]
+    if n == 0:
+        v.append(-0.0)
+    if strings:
+        v += [str(n), str(float(n))]
+    if bools and n in (0, 1):
+        v.append(bool(n))
+    return v
+
+
+def gen_osc_history(rng):
+    """2..8 requests to ONE address whose argument lists are mostly equal under Python's == (2, 2.0, "2", True/1)
+    but differ in type, with exact repeats in between; through send(), note_on/note_off or control; optionally spread
+    over two device instances"""
+    x = rng.random()
+    ndev = 2 if rng.random() < 0.25 else 1
+    n_msgs = rng.randint(2, 8)
+    if x < 0.5:
+        addr = gen_osc_addr(rng) if rng.random() < 0.8 else rng.choice(["/note", "/control"])
+        base = [rng.choice(OSCH_NUMS) if rng.random() < 0.8 else gen_osc_string(rng) for _ in range(rng.choice([1, 1, 2, 3, 3, 4]))]
+        bools = rng.random() < 0.3
+        var = lambda b: typed_variants(b, True, bools) if isinstance(b, int) else [b]
+        mk = lambda vals: {"op": "send", "args": [addr, list(vals)]}
+    elif x < 0.75:
+        base = [rng.randint(0, 127), rng.randint(1, 127), rng.randint(0, 15)]
+        var = lambda b: typed_variants(b, False)
+        def mk(vals):
+            y = rng.random()
+            if y < 0.6:
+                return {"op": "note_on", "args": list(vals)}
+            if y < 0.75:
+                return {"op": "note_off", "args": [vals[0], vals[2]]}
+            return {"op": "send", "args": ["/note", list(vals)]}
+    else:
+        base = [rng.randint(0, 127), rng.randint(0, 127), rng.randint(0, 15)]
+        var = lambda b: typed_variants(b, False)
+        mk = lambda vals: {"op": "control", "args": list(vals)} if rng.random() < 0.8 else {"op": "send", "args": ["/control", list(vals)]}
+    msgs, cur = [], [rng.choice(var(b)) for b in base]
+    for i in range(n_msgs):
+        if i:
+            y = rng.random()
+            if y < 0.65:
+                k = rng.randrange(len(base))
+                alt = [v for v in var(base[k]) if type(v) is not type(cur[k])] or var(base[k])
+                cur = cur[:k] + [rng.choice(alt)] + cur[k + 1:]
+            elif y < 0.8:
+                pass                                   # the very same request again: it must be sent again
+            else:
+                cur = [rng.choice(var(b)) for b in base]
+        m = mk(cur)
+        if ndev > 1:
+            m["dev"] = rng.randrange(ndev)
+        msgs.append(m)
+    h = {"msgs": msgs}
+    if ndev > 1:
+        h["ndev"] = ndev
+    return h
+
+
+def gen_midi_history(rng, n):
+    """requests for ONE MidiOutputDevice in which a request is often repeated unchanged or re-typed (60 / 60.0 / 60.9 /
+    numpy) right after itself: every one of them must reach the port"""
+    out, prev = [], None
+    for _ in range(n):
+        y = rng.random()
+        if prev is None or y < 0.35:
+            c = gen_midi_case(rng, allow_bad=False)
+        elif y < 0.7:
+            c = json.loads(json.dumps(prev))
+        else:
+            c = json.loads(json.dumps(prev))
+            k = rng.randrange(len(c["args"]))
+            v = trunc0(val(c["args"][k]))
+            c["args"][k] = rng.choice([v, float(v), v + 0.9 if v >= 0 else v - 0.9, ["np", "int64", v], ["np", "float64", float(v)]])
+        c.pop("kw", None)
+        out.append(c)
+        prev = c
+    return out
+
+
 def gen_timeline_case(rng, device, kind):
     n = rng.randint(1, 6)
     if kind == "note":
@@ -751,12 +1086,35 @@ def gen_timeline_case(rng, device, kind):
     if kind == "program":
         return {"device": device, "events": {"program_change": [rng.randint(0, 127) for _ in range(n)],
                                              "channel": [rng.randint(0, 15) for _ in range(n)], "duration": 1}}
+    if kind == "osc-typed":
+        h = gen_osc_history(rng)
+        while h["msgs"][0]["op"] != "send" or any(has_bool(m) for m in h["msgs"]):
+            h = gen_osc_history(rng)
+        sends = [m for m in h["msgs"] if m["op"] == "send"]
+        return {"device": device, "events": {"osc_address": sends[0]["args"][0], "osc_params": [m["args"][1] for m in sends], "duration": 1}}
+    if kind in ("long-note", "long-control", "long-program"):
+        # the same events, with LONG durations (>= 7 beats between consecutive messages) and the file device at one of
+        # several resolutions the Timeline's clock can drive (divisors / multiples of its 480 ticks per beat)
+        n = rng.randint(2, 4)
+        durs = [rng.choice([7, 8, 13, 20, 21, 33]) for _ in range(n)]
+        if rng.random() < 0.5:
+            durs[rng.randrange(n)] = rng.choice([50, 64, 100])
+        base = gen_timeline_case(rng, device, kind[5:])
+        ev = {k: ((v * n)[:n] if isinstance(v, list) else v) for k, v in base["events"].items()}
+        ev["duration"] = durs
+        if kind == "long-note":
+            ev["gate"] = rng.choice([0.5, 1.0, 0.25, 0.95])
+        c = {"device": device, "events": ev}
+        t = rng.choice([None, 24, 96, 120, 240, 960])
+        if t:
+            c["tpb"] = t
+        return c
     return {"device": device, "events": {"osc_address": [gen_osc_addr(rng) for _ in range(n)],
                                          "osc_params": [[gen_osc_arg(rng) for _ in range(rng.randint(0, 5))] for _ in range(n)], "duration": 1}}
 
 
 # ---- running the strata --------------------------------------------------------------------------------------
-JUDGES = {"midi": judge_midi, "osc": judge_osc, "mpe": judge_mpe, "file": judge_file, "timeline": judge_timeline}
+JUDGES = {"midi": judge_midi, "osc": judge_osc, "osch": judge_osch, "mpe": judge_mpe, "file": judge_file, "timeline": judge_timeline}
 
 
 def run_stratum(run, name, cases, shards=10):
@@ -820,6 +1178,8 @@ def check(run):
     edge += [{"op": "aftertouch", "args": [p, c]} for p in (0, 1, 64, 127, 99.9) for c in (0, 1, 7, 15)]
     n_rand = (20000 if quick else 120000) - len(edge)
     run_stratum(run, "midi", edge + [gen_midi_case(rng) for _ in range(n_rand)], shards=10)
+    # 1b. histories on ONE port device: the same request repeated unchanged / re-typed right after itself
+    run_stratum(run, "midi", gen_midi_history(rng, 600 if quick else 6000), shards=1)
     if not quick:
         exhaustive_midi(run)
     # 2. OSC: the documented forms, send(address, params) with ints, floats, strings, mixed lists, patterns
@@ -830,6 +1190,17 @@ def check(run):
              {"op": "send", "args": ["/mixed/list", [1, 2.5, "three", -4, ["pat", 5]]]}]
     forms += [{"op": "send", "args": ["/i", [z]]} for z in OSC_INTS] + [{"op": "send", "args": ["/f", [x]]} for x in OSC_FLOATS]
     run_stratum(run, "osc", forms + [gen_osc_case(rng) for _ in range(1500 if quick else 20000)], shards=6)
+    # 2b. OSC histories on one device: requests to the same address that are equal under == but differ in TYPE
+    #     (2 / 2.0 / "2" / True), exact repeats, two device instances; each datagram judged at the type-tag level
+    hists = [{"msgs": [{"op": "send", "args": ["/p", [2]]}, {"op": "send", "args": ["/p", [2.0]]}, {"op": "send", "args": ["/p", ["2"]]},
+                       {"op": "send", "args": ["/p", [2]]}, {"op": "send", "args": ["/p", [2]]}]},
+             {"msgs": [{"op": "send", "args": ["/b", [True, 0]]}, {"op": "send", "args": ["/b", [1, 0]]}, {"op": "send", "args": ["/b", [1.0, False]]},
+                       {"op": "send", "args": ["/b", [1.0, 0.0]]}, {"op": "send", "args": ["/b", [1, -0.0]]}]},
+             {"msgs": [{"op": "note_on", "args": [60, 64, 0]}, {"op": "note_on", "args": [60.0, 64, 0]}, {"op": "note_off", "args": [60, 0]},
+                       {"op": "note_off", "args": [60, 0.0]}, {"op": "send", "args": ["/note", [60, 0.0, 0]]}, {"op": "note_off", "args": [60, 0]}]},
+             {"msgs": [{"op": "control", "args": [7, 100, 3], "dev": 0}, {"op": "control", "args": [7, 100.0, 3], "dev": 1},
+                       {"op": "control", "args": [7, 100, 3], "dev": 1}, {"op": "control", "args": [7.0, 100, 3], "dev": 0}], "ndev": 2}]
+    run_stratum(run, "osch", hists + [gen_osc_history(rng) for _ in range(250 if quick else 4000)], shards=6)
     # 3. MPE allocator: random call sequences, up to 2000 calls, up to 15 notes held, far beyond 16 notes in total
     seqs = [[[0, 60, 64], [5, 60], [0, 62, 64], [1, 62]] + [x for n in range(20, 60) for x in ([0, n, 100], [1, n])],
             [[0, n, 64] for n in range(40, 55)] + [[1, 47], [0, 90, 1], [1, 40], [1, 54], [0, 91, 2], [0, 92, 3], [2, 90, 100], [5, 90], [2, 90, 7]]]
@@ -839,15 +1210,32 @@ def check(run):
     seqs += [gen_mpe_seq(rng, 150, rng.choice([3, 15]), malformed=True) for _ in range(3 if quick else 12)]
     run_stratum(run, "mpe", seqs, shards=12)
     # 4. MIDI file: the note/velocity/channel fields of the saved messages (delta times are C16's)
+    #    and WHEN each message lands: the absolute tick of every message of the saved file = the number of tick() calls
+    #    before the request, with long silences (7..250 beats) between consecutive messages, several ticks_per_beat,
+    #    requests of every kind, many dense events, and several devices alive at once
+    fixed_gaps = [{"ops": [["tpb", t], ["note_on", [48, 100, 9]], ["tick", 10 * t], ["note_off", [48, 9]], ["tick", t], ["note_on", [74, 90, 1]],
+                           ["tick", 20 * t], ["note_off", [74, 1]], ["control", [7, 100, 1]], ["tick", 7 * t], ["program_change", [5, 2]],
+                           ["note_on", [50, 1, 0]], ["tick", 100 * t + 1], ["note_off", [50, 0]], ["tick", 3 * t]]} for t in (24, 96, 120, 480, 960)]
     run_stratum(run, "file", [{"ops": [["note_on", [60, 64, 0]], ["tick", 3], ["note_off", [60, 0]], ["note_on", [61, 63.9, 15]], ["tick", 1], ["note_off", [61.2, 15]]]}]
-                + [gen_file_case(rng) for _ in range(150 if quick else 3000)], shards=6)
+                + [gen_file_case(rng) for _ in range(150 if quick else 3000)]
+                + fixed_gaps + [gen_file_gap_case(rng) for _ in range(40 if quick else 600)]
+                + [gen_file_gap_case(rng, 2) for _ in range(8 if quick else 100)]
+                + [gen_file_dense_case(rng) for _ in range(6 if quick else 60)], shards=12)
     # 5. through Timeline / Track.perform_event
     tcs = []
     for _ in range(6 if quick else 60):
         tcs += [gen_timeline_case(rng, "midi", "note"), gen_timeline_case(rng, "midi", "control"), gen_timeline_case(rng, "midi", "program"),
                 gen_timeline_case(rng, "file", "note"), gen_timeline_case(rng, "osc", "note"), gen_timeline_case(rng, "osc", "control"),
                 gen_timeline_case(rng, "osc", "osc")]
+        tcs += [gen_timeline_case(rng, "osc", "osc-typed")]
+    # long silences between the messages of a Timeline run on the file device (resolutions the clock can drive)
+    for _ in range(2 if quick else 12):
+        tcs += [gen_timeline_case(rng, "file", "long-note"), gen_timeline_case(rng, "file", "long-note"),
+                gen_timeline_case(rng, "file", "long-control"), gen_timeline_case(rng, "file", "long-program")]
     run_stratum(run, "timeline", tcs, shards=12)
+    run.cov["rule_histories"] = ("one OSC history = 2..8 requests through the same device instance(s), judged message by message (bool-carrying "
+                                 "messages are sent but not judged); MIDI-file cases are also judged on the absolute tick of every saved message "
+                                 "(= tick() calls before the request, integers; the closing dummy note_off is compared with the model only)")
     run.cov["rule"] = ("one MIDI/OSC case = one request on the real device (direct call), one MPE case = one call sequence on a fresh device, one file/"
                        "timeline case = one sequence of requests written to a file / performed by a Timeline; evaluations counts requests; distinct by the "
                        "JSON of the request(s); non-trivial = at least one message is requested. The wire bytes are compared with the Coq model inside coqc "
